@@ -122,9 +122,17 @@ void compute_spline_bas(double *auxo_agi, double *coords, double *atm_coords,
             diffr[2] = coords[3 * g + 2] - atm_coords[3 * at + 2];
             dr = sqrt(diffr[0] * diffr[0] + diffr[1] * diffr[1] +
                       diffr[2] * diffr[2]);
-            diffr[0] /= dr;
-            diffr[1] /= dr;
-            diffr[2] /= dr;
+            if (dr > 0) {
+                diffr[0] /= dr;
+                diffr[1] /= dr;
+                diffr[2] /= dr;
+            } else {
+                // point on the nucleus: only l=0 splines are nonzero at
+                // r=0, so any unit vector gives the correct limit.
+                diffr[0] = 0.0;
+                diffr[1] = 0.0;
+                diffr[2] = 1.0;
+            }
             recursive_sph_harm(buf, diffr, ylm);
             ir = (int)floor(log(dr / aparam + 1) / dparam);
             ir = MIN(ir, nrad - 1);
@@ -168,9 +176,17 @@ void compute_spline_bas_separate(double *auxo_agl, double *auxo_agp,
             diffr[2] = coords[3 * g + 2] - atm_coords[3 * at + 2];
             dr = sqrt(diffr[0] * diffr[0] + diffr[1] * diffr[1] +
                       diffr[2] * diffr[2]);
-            diffr[0] /= dr;
-            diffr[1] /= dr;
-            diffr[2] /= dr;
+            if (dr > 0) {
+                diffr[0] /= dr;
+                diffr[1] /= dr;
+                diffr[2] /= dr;
+            } else {
+                // point on the nucleus: only l=0 splines are nonzero at
+                // r=0, so any unit vector gives the correct limit.
+                diffr[0] = 0.0;
+                diffr[1] = 0.0;
+                diffr[2] = 1.0;
+            }
             recursive_sph_harm(buf, diffr, auxo_l);
             ir = (int)floor(log(dr / aparam + 1) / dparam);
             ir = MIN(ir, nrad - 1);
